@@ -465,12 +465,16 @@ func GenServerMsg(c *lib.Ctx) {
 		c.Count("srvmsg")
 		c.Dof("srv.msg %s %d %d %d", hexOf(ip), port, n, clen)
 	}
-	for i := c.Scale(5, 40); i > 0; i-- {
-		c.Count("e2e:real-server-real-fetcher")
-		ans := c.Dof("e2e.fetch %d %d", e2eNTPPort, clen)
+	for i := c.Scale(10, 60); i > 0; i-- {
+		op := "e2e.fetch"
+		if i%2 == 0 {
+			op = "e2e.fetchq"
+		}
+		c.Count("e2e:real-server-real-fetcher:" + op)
+		ans := c.Dof("%s %d %d", op, e2eNTPPort, clen)
 		if !strings.Contains(ans, "keys=agree") || !strings.HasPrefix(ans, "ok ") {
 			c.Fail("c20:key-agreement-real-server", "real fetcher against the real NTS-KE server: keys differ or exchange failed",
-				[]string{fmt.Sprintf("e2e.fetch %d %d", e2eNTPPort, clen)}, map[string]any{"answer": ans})
+				[]string{fmt.Sprintf("%s %d %d", op, e2eNTPPort, clen)}, map[string]any{"answer": ans})
 		}
 	}
 }
